@@ -41,9 +41,13 @@ structure Section where
   name : List Nat
   align : Nat
   order : Int
-  size : Nat := 0
+  /-- the bytes of the section buffer (`buffer().data()[0 .. size)`) -/
+  data : List Nat := []
   vsize : Nat := 0
   deriving DecidableEq, Repr, Inhabited
+
+/-- `buffer().size()` -/
+def Section.size (s : Section) : Nat := s.data.length
 
 structure Label where
   name : List Nat := []
@@ -187,8 +191,8 @@ def newNamed (o : Oracle) (s : St) (name : List Nat) (type parent : Nat) : Oracl
       | (true, o2) => (o2, s1, .oom)
       | (false, o2) =>
         let nm := s.v.named ++ [(name, parent, s.v.labels.length)]
-        let (o3, c3) := hashInsert o2 s1.c nm.length
-        push o3 c3 { name := name, type := type, parent := parent } nm
+        let r := hashInsert o2 s1.c nm.length
+        push r.1 r.2 { name := name, type := type, parent := parent } nm
 
 /-- the capacity loop of `CodeHolder::grow_buffer` -/
 def growLoop : Nat → Nat → Nat → Nat
@@ -199,7 +203,8 @@ def growLoop : Nat → Nat → Nat → Nat
 
 def growBufferCap (size cap n : Nat) : Nat :=
   let c0 := if cap < 8160 then 8160 else cap + 32
-  growLoop 64 c0 (size + n) - 32
+  -- the C++ `do { } while` has no bound; `size + n` iterations always suffice (every iteration adds at least one byte)
+  growLoop (size + n) c0 (size + n) - 32
 
 /-- `CodeWriter::ensure_space(n)` -> `grow_buffer` -> `realloc/malloc`: (oracle, capacity, success) -/
 def ensureSpace (o : Oracle) (size cap n : Nat) : Oracle × Nat × Bool :=
@@ -228,7 +233,7 @@ def exprTail (s : St) (sc : Section) (cap1 : Nat) (r : Oracle × St × Err) : Or
   | (true, o3) => (o3, { r.2.1 with v := s.v }, .oom)      -- `_relocations.pop()`
   | (false, o3) =>
     (o3, { r.2.1 with v := { s.v with relocs := s.v.relocs ++ [(1, true)],
-                                      sections := s.v.sections.set 0 { sc with size := sc.size + 4 } },
+                                      sections := s.v.sections.set 0 { sc with data := sc.data ++ [0, 0, 0, 0] } },
                       corrupt := r.2.1.corrupt || sc.size + 4 > cap1 }, .ok)
 
 /-- the expression branch of `embed_label_delta(label, base, 4)` in `.text` (REPAIRED, fixes/C15-4.patch: when the
@@ -292,7 +297,7 @@ def emit (o : Oracle) (s : St) (sec n : Nat) : Oracle × St × Err :=
     match ensureSpace o sc.size (s.c.bufCap.getD sec 0) n with
     | (o1, _, false) => (o1, s, .oom)
     | (o1, cap', true) =>
-      (o1, { s with v := { s.v with sections := s.v.sections.set sec { sc with size := sc.size + n } },
+      (o1, { s with v := { s.v with sections := s.v.sections.set sec { sc with data := sc.data ++ List.replicate n 0x90 } },
                     c := { s.c with bufCap := s.c.bufCap.set sec cap' },
                     corrupt := s.corrupt || sc.size + n > cap' }, .ok)
 
